@@ -481,7 +481,7 @@ var dfsEngineCfgs = []LCase{
 func dfsEngineLeg(t *testing.T, name string, pick func(lverdict) string) {
 	st := vh.Test(name).NoJournal()
 	// quick: every schedule with <= 1 preemption of every configuration (complete, ~1 s each) and the
-	// first 15 000 schedules with <= 2; thorough: every schedule with <= 2 preemptions (60 000 - 190 000
+	// first 6 000 schedules with <= 2; thorough: every schedule with <= 2 preemptions (60 000 - 190 000
 	// per configuration, complete), one configuration per shard process.
 	bound, limit := 1, 1000000
 	cfgs := dfsEngineCfgs
@@ -505,7 +505,7 @@ func dfsEngineLeg(t *testing.T, name string, pick func(lverdict) string) {
 		space[fmt.Sprintf("ops=%v senders=%d budget=%d size=%d", cfg.Ops, cfg.Senders, cfg.Budget, cfg.Size)] = fmt.Sprintf("%d schedules with <= %d preemptions, complete=%v", n, bound, complete)
 		all = all && complete
 		if vh.Tier() != "thorough" && os.Getenv("VERIF_DFS_BOUND") == "" {
-			n2, _ := dfsEngine(t, st, cfg, 2, pick, 15000)
+			n2, _ := dfsEngine(t, st, cfg, 2, pick, 6000)
 			space[fmt.Sprintf("ops=%v senders=%d budget=%d size=%d (prefix)", cfg.Ops, cfg.Senders, cfg.Budget, cfg.Size)] = fmt.Sprintf("first %d schedules with <= 2 preemptions", n2)
 		}
 	}
